@@ -42,7 +42,8 @@ LEVEL_TEXT = ("Exploration: thousands of generated documents (1-6 alternatives p
               " from_stream on real file objects and FileReader streams; comments with unbalanced brackets; documents of exactly 4096k points."
               " Form feed and Unicode line-boundary characters inside comments."
               " Streams whose reads convert another document; the same unchanged file converted twice."
-              " One document of more than 2^20 characters per shard; conversions with a custom type table and column names (directly and through a converter subclass).")
+              " One document of more than 2^20 characters per shard; conversions with a custom type table and column names (directly and through a converter subclass)."
+              " One parsed document converted twice.")
 LEVEL_NOTE = ("Comments are placed at line ends anywhere between tokens except inside a point or a "
               "marker (before the document, after brackets, bars, points, colour markers and the "
               "label); colour markers before the label and between points. Expected coordinates are float32(float(token)). The step budget is "
